@@ -135,6 +135,11 @@ func lattice64(quick bool) []int64 {
 		}
 		p *= 10
 	}
+	// values around the places where products with the optimisation interval wrap
+	for _, v := range []int64{1844674407370, 1844674407371, 922337203685, 922337203686, 18446744073, 18446744074,
+		int64(time.Hour), int64(24 * time.Hour), int64(time.Minute), 1 << 32, 1<<32 + 1, 1<<32 - 1, 3037000499, 3037000500} {
+		set[v] = true
+	}
 	ms := int64(10 * time.Millisecond)
 	for _, v := range []int64{ms - 1, ms, ms + 1, 2 * ms, 2*ms + 1, 2*ms - 1, math.MaxInt64, math.MaxInt64 - 1, int64(time.Second), int64(time.Hour)} {
 		set[v] = true
